@@ -343,7 +343,7 @@ class GeoPolygon(PolygonBase, SimpleShapeMixin):
         return s_holes == o_holes
 
     def __hash__(self):
-        return hash((tuple(self.outline), self.dt))
+        return hash((frozenset(self.outline), self.dt))
 
     def __repr__(self):
         return f'<GeoPolygon of {len(self.outline) - 1} coordinates>'
